@@ -587,6 +587,75 @@ pub fn plan(tier: &str) -> Plan {
     }
 }
 
+/// Stage S2 for the chunk layer: replay the behaviours TLC printed from Gen_Chunk.tla (one JSON array of steps per
+/// line) through the real serializer - once judged under every drop subset by the reference receiver ("all"), once
+/// with exactly the drops the behaviour prescribes fed to the real deserializer ("fixed").  After the prescribed steps
+/// two sibling messages per media type follow, so that whatever the last step did to the header memory shows.
+pub fn generate_from_paths(paths: &str, seed: u64, shard: u64, nshards: u64, path: &str) -> Value {
+    quiet_panics();
+    let mut t = Trace::create(path);
+    let mut c0 = 0usize;
+    let mut rng = Rng::new(seed ^ shard.wrapping_mul(0x9E3779B9) ^ 66);
+    let text = std::fs::read_to_string(paths).expect("paths file");
+    let mut runs = 0usize;
+    let mut msgs = 0usize;
+    let mut npaths = 0usize;
+    for (i, line) in text.lines().enumerate() {
+        if line.trim().is_empty() || (i as u64) % nshards != shard {
+            continue;
+        }
+        let steps_j: Vec<Value> = serde_json::from_str(line).expect("path json");
+        npaths += 1;
+        let mut steps: Vec<SerStep> = Vec::new();
+        let mut dropped: Vec<bool> = Vec::new();
+        let mut last_ts = 0u32;
+        for (k, sj) in steps_j.iter().enumerate() {
+            let ts = ((sj["ts"][0].as_u64().unwrap() as u32) << 16) | sj["ts"][1].as_u64().unwrap() as u32;
+            let len = sj["len"].as_u64().unwrap() as usize;
+            let ty = sj["ty"].as_u64().unwrap() as u8;
+            let cd = sj["cd"].as_bool().unwrap();
+            last_ts = ts;
+            match sj["k"].as_str().unwrap() {
+                "setcs" => {
+                    let sz = sj["size"].as_u64().unwrap() as u32;
+                    steps.push(SerStep { m: M { ty: 1, msid: 0, ts, data: sz.to_be_bytes().to_vec() }, fu: true, cd: false, setcs: Some(sz) });
+                }
+                "refused" => {
+                    steps.push(SerStep { m: M { ty, msid: 1, ts, data: vec![0u8; len] }, fu: false, cd, setcs: None });
+                }
+                _ => {
+                    let mut d = gen_data(&mut rng, len);
+                    if len > 0 { d[0] = (k as u8) | 0x10; }
+                    steps.push(SerStep { m: M { ty, msid: sj["msid"].as_u64().unwrap() as u32, ts, data: d }, fu: sj["full"].as_bool().unwrap(), cd, setcs: None });
+                    if cd { dropped.push(sj["dropped"].as_bool().unwrap()); }
+                }
+            }
+        }
+        for (j, ty) in [9u8, 8, 9, 8].iter().enumerate() {
+            let d = gen_data(&mut rng, 10);
+            steps.push(SerStep { m: M { ty: *ty, msid: 1, ts: last_ts.wrapping_add(40 * (1 + (j as u32) / 2)), data: d }, fu: false, cd: false, setcs: None });
+        }
+        msgs += steps.len();
+        {
+            let mut run = Run::new(&t, "all", true);
+            run_serializer(&mut run, &steps, &mut |_| false);
+            run.finish(&mut t, &mut c0, false);
+            runs += 1;
+        }
+        {
+            let mut run = Run::new(&t, "fixed", true);
+            let dr = dropped.clone();
+            run_serializer(&mut run, &steps, &mut |k| dr.get(k - 1).copied().unwrap_or(false));
+            let part = *rng.pick(&[Part::OneShot, Part::PerPacket, Part::Random, Part::HeaderCuts]);
+            let all = do_feed(&mut run, &mut rng, part);
+            run.finish(&mut t, &mut c0, all);
+            runs += 1;
+        }
+    }
+    t.flush();
+    json!({"kind":"gen","runs":runs,"messages":msgs,"paths":npaths,"lines":t.line,"path":path})
+}
+
 /// Which family of runs to generate into the file: lets the driver split work over TLC processes.
 pub fn generate(kind: &str, tier: &str, seed: u64, shard: u64, nshards: u64, path: &str) -> Value {
     quiet_panics();
